@@ -2,6 +2,7 @@ import Clikit.Lemmas.Progress
 import Clikit.Lemmas.ProgressClean
 import Clikit.Lemmas.ProgressSetters
 import Clikit.Lemmas.ProgressScreen
+import Clikit.Lemmas.ProgressMulti
 /-!
 # C16 - a progress bar always shows a truthful, well-formed frame and ends at 100 %
 
@@ -899,6 +900,112 @@ example :
        (.op (.advance 1), 64064)]
     framesFitB evs = false ∧
     (screenC (Scr.fresh 0 []) evs).rows = ["a".toList, "c    1".toList] := by decide +kernel
+
+/-! ### `hframes` from the INPUTS: multi-line formats, clean substitutions (round 10)
+
+`hframes` above speaks about the events of the history.  It follows from the inputs alone: the text of the format
+(the one given before the run and every argument of `set_format` in the middle of it) may contain line breaks but
+no CR / ESC; the three bar characters and the messages (before the run and every setter / `set_message` argument)
+contain no line break, no CR, no ESC.  Everything else that is substituted for a placeholder - numbers, percent,
+elapsed / remaining / estimated times, the padding of a `:spec` - is free of them whatever the inputs are; the
+built-in formats have no CR / ESC. -/
+
+/-- **Frames fit, from clean inputs.**  Along every history with setters, under a configuration whose format has
+no CR / ESC and whose bar characters have no line break / CR / ESC, with call arguments of the same kind
+(`mlCleanCfgB`, `mlCleanCallsB`): every frame drawn has exactly as many line breaks as the format it was rendered
+from, that format is the one in use after the call and `formatLineCount` is its number of line breaks; the frame
+contains no CR / ESC.  Formats with any placeholders (known, unknown, with or without `:spec`), `set_format` /
+character setters / `set_message` in the middle of the run included. -/
+theorem frames_fit_clean (c : Config) (m : Int) (t0 : Nat) (calls : List (Call × Nat))
+    (hc : mlCleanCfgB c = true) (hcalls : mlCleanCallsB calls = true) :
+    ∀ e ∈ runC c (init m t0) calls, ∀ f, e.res.frame = some f →
+      ∃ fmt, e.res.st.format = some fmt ∧ countNL f.text = countNL fmt ∧
+        e.res.st.formatLineCount = countNL fmt ∧ Printable f.text :=
+  fun e he => (runC_ml calls c (init m t0) ((mlCleanCfgB_iff c).mp hc) (init_ml m t0)
+    ((mlCleanCallsB_iff calls).mp hcalls) e he).2
+
+/-- ... in the form of the hypothesis `hframes` / of the decider `framesFitB` -/
+theorem frames_fit_clean_dec (c : Config) (m : Int) (t0 : Nat) (calls : List (Call × Nat))
+    (hc : mlCleanCfgB c = true) (hcalls : mlCleanCallsB calls = true) :
+    framesFitB (runC c (init m t0) calls) = true := by
+  rw [framesFitB_iff]
+  intro e he f hf
+  obtain ⟨fmt, _, h1, h2, h3⟩ := frames_fit_clean c m t0 calls hc hcalls e he f hf
+  exact ⟨by rw [h1, h2], h3⟩
+
+/-- what the deciders `valueCleanB`, `mlCleanCfgB`, `mlCleanCallsB` (Model/Progress.lean) mean -/
+theorem clean_inputs_decide (c : Config) (calls : List (Call × Nat)) :
+    (mlCleanCfgB c = true ↔
+      (∀ f, c.internalFormat = some f → ∀ ch ∈ f, ch ≠ '\r' ∧ ch ≠ ESC) ∧
+      (∀ ch ∈ c.emptyChar, ch ≠ '\n' ∧ ch ≠ '\r' ∧ ch ≠ ESC) ∧
+      (∀ ch ∈ c.progressChar, ch ≠ '\n' ∧ ch ≠ '\r' ∧ ch ≠ ESC) ∧
+      (∀ b, c.barChar = some b → ∀ ch ∈ b, ch ≠ '\n' ∧ ch ≠ '\r' ∧ ch ≠ ESC)) ∧
+    (mlCleanCallsB calls = true ↔ ∀ x ∈ calls, MLCleanCall x.1) :=
+  ⟨mlCleanCfgB_iff c, mlCleanCallsB_iff calls⟩
+
+/-- **`ansi_screen_shows_latest_frame` over clean INPUTS**: the same conclusion, `hframes` replaced by the
+conditions on the configuration and on the call arguments (`hfirst` stays: it is about the rows above the bar). -/
+theorem ansi_screen_shows_latest_frame_clean (c : Config) (hk : c.kind = .ansi) (hq : c.quiet = false) (m : Int)
+    (t0 : Nat) (calls : List (Call × Nat)) (k : Nat) (restRev : List Str)
+    (hc : mlCleanCfgB c = true) (hcalls : mlCleanCallsB calls = true)
+    (hfirst : restRev = [] ∨ ∀ e ∈ runC c (init m t0) calls, e.pre.displayedLineCount = none →
+      e.res.writes ≠ [] → e.res.st.formatLineCount ≤ k)
+    (evs1 evs2 : List CEvent) (h : runC c (init m t0) calls = evs1 ++ evs2) :
+    match lastLinesFrom none evs1 with
+    | none => screenC (Scr.fresh k restRev) evs1 = Scr.fresh k restRev
+    | some L => ∃ j, j ≤ k ∧ L ≠ [] ∧
+        screenC (Scr.fresh k restRev) evs1 = Scr.showing (List.replicate j [] ++ restRev) L ∧
+        (screenC (Scr.fresh k restRev) evs1).rows = restRev.reverse ++ List.replicate j [] ++ L ∧
+        (screenC (Scr.fresh k restRev) evs1).below = [] ∧
+        (screenC (Scr.fresh k restRev) evs1).aboveRev.length = restRev.length + j + (L.length - 1) :=
+  ansi_screen_shows_latest_frame c hk hq m t0 calls k restRev
+    ((framesFitB_iff _).mp (frames_fit_clean_dec c m t0 calls hc hcalls)) hfirst evs1 evs2 h
+
+/-- **`ansi_screen_after_frame` over clean inputs** -/
+theorem ansi_screen_after_frame_clean (c : Config) (hk : c.kind = .ansi) (hq : c.quiet = false) (m : Int)
+    (t0 : Nat) (calls : List (Call × Nat)) (k : Nat) (restRev : List Str)
+    (hc : mlCleanCfgB c = true) (hcalls : mlCleanCallsB calls = true)
+    (hfirst : restRev = [] ∨ ∀ e ∈ runC c (init m t0) calls, e.pre.displayedLineCount = none →
+      e.res.writes ≠ [] → e.res.st.formatLineCount ≤ k)
+    (evs1 : List CEvent) (e : CEvent) (evs2 : List CEvent)
+    (h : runC c (init m t0) calls = evs1 ++ e :: evs2) (f : Frame) (hf : e.res.frame = some f) :
+    ∃ j, j ≤ k ∧
+      (screenC (Scr.fresh k restRev) (evs1 ++ [e])).rows =
+        restRev.reverse ++ List.replicate j [] ++ (splitNL f.text).map (fun l => l ++ spaces (e.pre.lastLen - l.length)) ∧
+      (screenC (Scr.fresh k restRev) (evs1 ++ [e])).below = [] ∧
+      (screenC (Scr.fresh k restRev) (evs1 ++ [e])).aboveRev.length = restRev.length + j + countNL f.text :=
+  ansi_screen_after_frame c hk hq m t0 calls k restRev
+    ((framesFitB_iff _).mp (frames_fit_clean_dec c m t0 calls hc hcalls)) hfirst evs1 e evs2 h f hf
+
+/-- the two-line format with `set_format` to one line and back (`cTwo`, `callsTwo`): the inputs are clean -/
+example : mlCleanCfgB cTwo = true ∧ mlCleanCallsB callsTwo = true := by decide +kernel
+
+/-- the theorem over inputs applied to it: no hypothesis about the events except the first move -/
+example := ansi_screen_shows_latest_frame_clean cTwo rfl rfl 3 64000 callsTwo 1 ["app output".toList]
+  (by decide +kernel) (by decide +kernel) (Or.inr ((firstMoveB_iff 1 _).mp (by decide +kernel)))
+  (runC cTwo (init 3 64000) callsTwo) [] (by simp)
+
+/-- a two-line format with a message, an unknown placeholder containing a line break in its `:spec` (copied
+as it stands) and a width spec; `set_format` to one line in the middle.  The inputs are clean, the frames are
+the ones computed, their line breaks are those of the formats; the last frame stands alone on the terminal
+(padded to the longest line written before) -/
+example :
+    let c := mkConfig .ansi false 0 120 0 none none (some 4) none none none
+      (some "%message% %current:3s%\n%nope:a\nb% [%bar%]".toList)
+    let calls : List (Call × Nat) :=
+      [(.op (.setMessage "load".toList), 64000), (.op (.start none), 64000),
+       (.set (.format "%current%/%max% %message%".toList), 64001), (.set (.progressChar "*".toList), 64001),
+       (.op (.setMessage "done".toList), 64002), (.op (.advance 2), 64064)]
+    mlCleanCfgB c = true ∧ mlCleanCallsB calls = true ∧
+    (runC c (init 2 64000) calls).map (fun e => e.res.frame.map (·.text)) =
+      [none, some "load   0\n%nope:a\nb% [>---]".toList, none, none, none, some "2/2 done".toList] ∧
+    (screenC (Scr.fresh 0 []) (runC c (init 2 64000) calls)).rows = ["2/2 done ".toList] := by decide +kernel
+
+/-- the condition on the substituted texts is needed (the counterexample to `hframes` above has a message with a
+line break: `valueCleanB` rejects it); a format with ESC is rejected as well -/
+example : mlCleanCallsB [(.op (.setMessage "a\nb".toList), 64000)] = false ∧
+    mlCleanCallsB [(.set (.format ("%current%".toList ++ [ESC] ++ "[2J".toList)), 64000)] = false ∧
+    mlCleanCallsB [(.set (.format "%current%\n%bar%".toList), 64000)] = true := by decide
 
 /-! ## Non-vacuity of the theorems about setters and `set_format` (hypothesis audit, rounds 8-9) -/
 
